@@ -228,7 +228,7 @@ def render_free(prog, rng, opts=None, comment_texts=None):
             laid.comments.append((len(laid.lines), c, False))
             laid.hit("comment-line")
         while rng.random() < opts.p_blank:
-            laid.lines.append("")
+            laid.lines.append(rng.choice(["", "", "   "]))
             laid.hit("blank-line")
 
     while i < n:
@@ -253,7 +253,7 @@ def render_free(prog, rng, opts=None, comment_texts=None):
                     laid.comments.append((len(laid.lines), c, False))
                     laid.hit("comment-in-continuation")
                 else:
-                    laid.lines.append("")
+                    laid.lines.append(rng.choice(["", "", "    "]))
                     laid.hit("blank-in-continuation")
             if lead is None:
                 line = pad + body
@@ -332,7 +332,7 @@ def render_fixed(prog, rng, opts=None):
             laid.comments.append((len(laid.lines), c, False))
             laid.hit("comment-line-" + c[0])
         if rng.random() < opts.p_blank:
-            laid.lines.append("")
+            laid.lines.append(rng.choice(["", "", "   ", "        "]))
             laid.hit("blank-line")
         body = ""
         if st.cname:
@@ -388,6 +388,10 @@ def render_fixed(prog, rng, opts=None):
                     laid.lines.append(c)
                     laid.comments.append((len(laid.lines), c, False))
                     laid.hit("comment-in-continuation")
+                elif rng.random() < 0.08:
+                    # an empty or whitespace-only line between continuation lines is a comment line
+                    laid.lines.append(rng.choice(["", "    ", "          "]))
+                    laid.hit("blank-in-continuation")
                 mark = rng.choice(opts.cont_chars)
                 laid.lines.append("     " + mark + ch)
                 laid.hit("cont-" + mark)
